@@ -392,9 +392,15 @@ def rule_pool(ctx: Ctx) -> None:
     for q in ("pipefunc.map._run.run_map", "pipefunc.map._run.run_map_async._run_pipeline"):
         f = P.func(q)
         w = [x for x in walk_no_nested(f.node) if isinstance(x, ast.With) and any("_maybe_executor" in norm(i.context_expr) for i in x.items)]
-        lp = [x for x in walk_no_nested(f.node) if isinstance(x, ast.For) and "topological_generations" in norm(x.iter)]
-        ok = bool(w) and bool(lp) and any(x is lp[0] for x in ast.walk(w[0]))
-        ctx.add("5-pool", f, w[0] if w else f.node, ok, "the generation loop runs inside `with _maybe_executor(...)`" if ok else "the generation loop is outside the executor context manager", key="loop-in-with")
+        # the executor handed out by the context manager is only used while the `with` is open
+        names = {i.optional_vars.id for x in w for i in x.items if "_maybe_executor" in norm(i.context_expr) and isinstance(i.optional_vars, ast.Name)}
+        inside = {id(n) for x in w for n in ast.walk(x)}
+        uses = [n for n in ast.walk(f.node) if isinstance(n, ast.Name) and n.id in names and isinstance(n.ctx, ast.Load)]
+        outside = [n for n in uses if id(n) not in inside]
+        bare = [c for c in ast.walk(f.node) if isinstance(c, ast.Call) and dotted(c.func).endswith("_maybe_executor") and id(c) not in inside]
+        ok = bool(w) and bool(names) and bool(uses) and not outside and not bare
+        ctx.tri("5-pool", f, outside[0] if outside else (bare[0] if bare else (w[0] if w else f.node)), ok, bool(outside or bare), "the executor is only used inside `with _maybe_executor(...)`",
+                f"the executor of `_maybe_executor` is used outside its `with` block (line {(outside or bare)[0].lineno}): the generations run after the pool was shut down, or the pool is never shut down" if (outside or bare) else "", "executor context manager not recognised", key="loop-in-with")
 
 
 def rule_release(ctx: Ctx) -> None:
